@@ -155,7 +155,7 @@ def specDeadline (timeout : Int) (parent : Option Int) (now : Int) : Option Int 
 /-! ## Part F — the plan (inputs and fault placement) -/
 
 structure Src where
-  reads : Nat        -- successful reads (one pipe write each)
+  reads : Nat        -- successful reads of one byte each
   fails : Bool       -- then an error instead of EOF
 deriving DecidableEq, Repr
 
@@ -219,9 +219,29 @@ def Plan.expiredAtStart (p : Plan) : Bool :=
 inductive Act | wForm | w | fail
 deriving DecidableEq, Repr
 
-def fileScript (s : Src) : List Act :=
-  if s.fails && s.reads == 0 then [.fail]
-  else List.replicate (1 + s.reads) .w ++ (if s.fails then [.fail] else [])
+/-- request.go:186 (regenerated fact): the sniffing buffer is filled with `io.ReadFull(fi, buf)`
+(the repaired code of C11); otherwise with a single `fi.Read(buf)`. -/
+def sniffFull : Bool := Facts.c11ReadCall == "io.ReadFull(fi, buf)"
+
+/-- One upload file whose source yields `reads` one-byte reads and then EOF or an error.
+
+`full = false` (single `fi.Read(buf)`): the first read is the sniff; the part header is written,
+then every byte read is one pipe write (the sniffed byte through the MultiReader, the others
+through io.Copy); a source that fails on its very first read fails before the header.
+
+`full = true` (`io.ReadFull(fi, buf)`, window `w`): the sniff reads until the window is full or the
+source ends. A source that fails within the window fails inside ReadFull, BEFORE the part header is
+written. Otherwise: one write for the header, one write for the whole sniffed prefix (if any), then
+one write per further byte, then EOF or the failing read. -/
+def fileScriptW (full : Bool) (w : Nat) (s : Src) : List Act :=
+  if full then
+    if s.reads < w then (if s.fails then [.fail] else .w :: (if s.reads == 0 then [] else [.w]))
+    else .w :: .w :: (List.replicate (s.reads - w) .w ++ (if s.fails then [.fail] else []))
+  else
+    if s.fails && s.reads == 0 then [.fail]
+    else List.replicate (1 + s.reads) .w ++ (if s.fails then [.fail] else [])
+
+def fileScript (s : Src) : List Act := fileScriptW sniffFull Facts.c11SniffWindow s
 
 def filesScript : List Src → List Act
   | [] => []
